@@ -8,6 +8,9 @@
 #include <string>
 #include <vector>
 
+/** Monotone progress counter (simulation steps; the harness adds node ticks) read by the wall-clock watchdog of a run. */
+extern "C" volatile unsigned long long vsim_progress;
+
 namespace vsim {
 
 enum Site {
@@ -53,6 +56,7 @@ struct Stats {
     uint64_t steps = 0, switches = 0, schedHash = 0, timerJumps = 0, spurious = 0, lateTimers = 0,
              freezesFired = 0, jumpsFired = 0, starveRescues = 0, threadsCreated = 0, maxRunnable = 0, decisions = 0;
     long long jumpedNs = 0;               // total injected clock jump
+    uint64_t clockReads[R_NROLES];        // clock reads per role
     uint64_t pairs[S_NSITES * R_NROLES][2]; // bitset over (site,role)->(site,role) context switches
 };
 
